@@ -71,14 +71,35 @@ def grid_periodic(spec):
     return list(spec["periodic"])
 
 
+def _bc_function(c, ndim):
+    """What a user's factory of boundary functions returns: closures of ONE def that differ in a captured value."""
+    if ndim == 1:
+        def value_func(value, dx, x, t):
+            return c + 0 * value
+    elif ndim == 2:
+        def value_func(value, dx, x, y, t):
+            return c + 0 * value
+    else:
+        def value_func(value, dx, x, y, z, t):
+            return c + 0 * value
+    return value_func
+
+
 def build_bc(kind, gspec):
     """Boundary condition data for a grid, written per axis so that periodic axes are legal."""
     if isinstance(kind, str) and kind.startswith("auto_"):
         return kind
     names = AXES[gspec["cls"]][: len(gspec["shape"])]
     per = grid_periodic(gspec)
+    anti = isinstance(kind, dict) and kind.get("_anti")
+    if isinstance(kind, dict) and ("_anti" in kind or "_callable" in kind):
+        kind = {k: v for k, v in kind.items() if not k.startswith("_")} if "_callable" not in kind else \
+            {"value_expression": _bc_function(float(kind["_callable"]), len(names))}
     out = {}
     for name, p in zip(names, per):
+        if p and anti:
+            out[name] = "anti-periodic"
+            continue
         if isinstance(kind, dict) and any("COORD" in str(v) for v in kind.values()) and not p:
             others = [n for n in names if n != name]
             out[name] = {k: str(v).replace("COORD", others[0] if others else "0.5") for k, v in kind.items()}
@@ -183,7 +204,14 @@ class Live:
         # (periodic axes must be declared "periodic"), so the constructor arguments depend on the class and
         # periodicity of the grid; the object is re-used on every state for which those arguments coincide.
         gs = self.h["grids"][gid]
-        key = eid + ":" + gs["cls"] + ":" + "".join("p" if p else "n" for p in grid_periodic(gs))
+        es = self.h["eqs"][eid]
+        bc_specs = [es[k] for k in ("bc", "bc_c", "bc_mu") if k in es] + list((es.get("bc_ops") or {}).values())
+        if all(isinstance(b, str) and b.startswith("auto_") for b in bc_specs):
+            # conditions given by name ("auto_periodic_neumann") suit every grid: ONE equation object for all of them,
+            # also for grids that differ only in their periodicity
+            key = eid + ":any-grid"
+        else:
+            key = eid + ":" + gs["cls"] + ":" + "".join("p" if p else "n" for p in grid_periodic(gs))
         if key not in self.eqs:
             if not hasattr(self, "user_funcs"):
                 self.user_funcs = {"double": _double}
